@@ -18,7 +18,7 @@ def run(ctx):
     ante_common.constants(ctx, verif.REPO)
     ctx.lean_proofs("Props.C14")
     ctx.rule("c14: real app as in c15; parts: modern rule set (60%), application-transfer feature inactive so that the public key may come from the "
-             "account (20%), and the real ante handler run with a context at height 30334 (20%). Core: application MsgStake that is NOT transfer-shaped (amount > 0, chains) naming somebody else's key — victims: an existing staked app, a funded non-app account — signed by a staked app's key, an unstaking app's key, a key without app; non-custodial edit-stake signed by output "
+             "account (20%), and the real ante handler run with a context at height 30334 (20%). Core: node MsgStake for records that are on file but not ordinary staked nodes — a leftover record with status Unstaked (output address kept), an Unstaking record, a jailed staked record — signed by a stranger naming itself as output, a stranger naming the recorded output, the recorded output address, the operator (judged by Ledger.stakeSignerChecks on the dumped record: handler-accepted-unauthorized-signer); application MsgStake that is NOT transfer-shaped (amount > 0, chains) naming somebody else's key — victims: an existing staked app, a funded non-app account — signed by a staked app's key, an unstaking app's key, a key without app; non-custodial edit-stake signed by output "
              "address / operator / stranger, application transfer signed by the application / a stranger / the new key, multisig in and out of "
              "order, a transfer out of somebody else's account signed by a stranger; output-address edits and an application transfer whose signer is not in Msg.GetSigners(); the multisig matrix: accounts of 2, 3 and 4 keys × {all members in order, reversed, every strict prefix, every single omission, a non-member's signature at each position, an extra signature, member 0 duplicated everywhere, an empty slot, no signatures} — the verdict for a multisig key is composed by the driver (Ledger.multisigOk) from per-position member verdicts, never taken from the real multisig VerifyBytes. Random: 15 message kinds × {declared signer, alternative "
              "signer, stranger, key without account, multisig stranger, multisig misordered / too deep} × 45% defects {flipped byte, other chain "
